@@ -43,6 +43,11 @@ def mapsAtCls (w : World) : Ty → Obj → Bool
   | .union _ _, .none => true
   | .union cs _, .dict kvs => cs.all (fun c => mapsAtClsF w (w.fields c) kvs)
   | .union _ _, _ => false
+  -- a NamedTuple position is a tuple position: the items are inspected like those of a heterogeneous tuple
+  | .nt c, o =>
+      match h : iterItems o with
+      | Option.none => true
+      | some xs => mapsAtClsT w (w.ntTys c) xs
   | _, _ => true
 termination_by t x => (sizeOf x, sizeOf t)
 decreasing_by
